@@ -32,7 +32,9 @@ RULE = (
     "calculator or front end starting from freshly re-imported modules.  Front ends: Hypothesis-drawn bit strings 0..400 (CRC8, CRC9 x 3 masks), octet strings 0..64 (CRC16 x 5 "
     "masks, CRC32), CRC-9 parts (data 0..24 octets, serial 0..127, crc32 absent / int in [1,2^32) / 4 octets).  Acceptance: "
     "all 2^w check values for w<=16 on sampled messages, computed value +-1 and all single-bit neighbours elsewhere.  "
-    "Detection: ALL error patterns of weight 1..3 over the 96 bits (80 data + 16 CRC) of a CRC-CCITT PDU per sampled "
+    "Extreme outputs: for every engine configuration and front end (x mask) several message shapes with a solved window "
+    "(GF(2) elimination on the reference's affine map) whose CRC is exactly 0 / all ones / 1 / top bit only / all ones - 1 / "
+    "top bit clear.  Detection: ALL error patterns of weight 1..3 over the 96 bits (80 data + 16 CRC) of a CRC-CCITT PDU per sampled "
     "(message, mask); bursts: all 2^(w-1) burst patterns for w<=9 (w=16: all in thorough, sampled in quick; w=32 sampled) "
     "at sampled offsets, through engines and front ends.  Distinct = hash of the case (Hypothesis parts) or distinct by "
     "construction (enumerations).  Non-trivial: engine / bit-level front-end cases whose length is >= one table feed and "
@@ -205,10 +207,11 @@ def oracle_engine(case):
         ok = call(calc.verify_checksum, bits.copy(), expected)[1]
         if ok is not True:
             raise Fail("verify_accepts_computed_value", ok, True, label)
-        wrong = expected ^ (1 << (len(s) % w))
-        ok = call(calc.verify_checksum, bits.copy(), wrong)[1]
-        if ok is not False:
-            raise Fail("verify_rejects_other_value", ok, False, label)
+        wrongs = _neighbours(expected, w) if case.get("neighbours") else [expected ^ (1 << (len(s) % w))]
+        for wrong in wrongs:
+            ok = call(calc.verify_checksum, bits.copy(), wrong)[1]
+            if ok is not False:
+                raise Fail("verify_rejects_other_value", {"value": hex(wrong), "result": ok}, {"value": hex(wrong), "result": False}, label)
 
 
 def oracle_linearity(case):
@@ -405,6 +408,28 @@ def oracle_captured(case):
     if got != case["captured"]:
         raise Fail("front_end_equals_captured_value", hex(got), hex(case["captured"]), fe)
     oracle_front({"fe": fe, "msg": msg})
+
+
+# ---------------------------------------------------------------------------------------------- extreme output values
+
+
+def oracle_extreme(case):
+    """case = {target: 'engine:<cfg>' | front end, msg, want: int}: a message CONSTRUCTED (GF(2) linear algebra on the
+    reference) so that its CRC is exactly an edge value of the output range (0, all ones, 1, top bit only, all ones - 1,
+    top bit clear).  The reference must hit the value (else harness error); then the usual clauses: value equals the
+    reference in every mode, check / verify accepts exactly it and rejects every single-bit neighbour and value +-1
+    including the wrap-around neighbours 0 <-> all ones."""
+    target, msg, want = case["target"], case["msg"], case["want"]
+    if target.startswith("engine:"):
+        cfg = target.split(":")[1]
+        if crc_ref.rem(cfg, crc_ref.bits_of(msg["bits"])) != want:
+            raise HarnessError(f"construction failed: reference CRC is not {hex(want)} for {case}")
+        oracle_engine({"cfg": cfg, "bits": msg["bits"], "prev": case.get("prev"), "neighbours": True})
+        return
+    fe = target
+    if not _reference_applies(fe, msg) or fe_expected(fe, msg) != want:
+        raise HarnessError(f"construction failed: reference CRC is not {hex(want)} for {case}")
+    oracle_front({"fe": fe, "msg": msg, "prev": case.get("prev"), "values": "neighbours"})
 
 
 # ---------------------------------------------------------------------------------------------- histories
@@ -999,8 +1024,82 @@ def drv_history(ctx: Ctx, sub: SubCheck):
                 ctx.tally.case(sub.name, key=case, nontrivial=(a != b), cls="directed_same_packed_octets")
 
 
+def _bits_window_builder(prefix, nbits, suffix):
+    return lambda x: prefix + format(x, f"0{nbits}b") + suffix
+
+
+def _octet_window(data: bytes, pos: int, n: int, x: int) -> bytes:
+    return data[:pos] + x.to_bytes(n, "big") + data[pos + n:]
+
+
+def _extreme_plans(ctx: Ctx):
+    """(target, label, make(x) -> msg, window bits): message shapes with a solvable window, deterministic from the seed."""
+    rng = ctx.rng("extreme")
+    plans = []
+    for cfg in CFGS:
+        w, fw = crc_ref.WIDTH[cfg], feed(cfg)
+        # (prefix length, suffix length): the bare window, a partial-feed length, a multiple of the feed, two longer ones
+        shapes = [(0, 0), (5, 0), (max(0, 3 * fw - w), 0), (2 * fw + 3, 7), (rng.randrange(60, 200), rng.randrange(0, 30)), (rng.randrange(200, 380 - w), 11)]
+        for p, q in shapes:
+            pre, suf = _rand_bits(rng, p), _rand_bits(rng, q)
+            plans.append((f"engine:{cfg}", f"len_{p + w + q}", (lambda x, pre=pre, suf=suf, w=w: {"bits": pre + format(x, f"0{w}b") + suf}), w))
+    for p, q in [(20, 0), (0, 0), (29, 0), (40, 21), (rng.randrange(50, 300), rng.randrange(0, 9))]:
+        pre, suf = _rand_bits(rng, p), _rand_bits(rng, q)
+        plans.append(("crc8", f"len_{p + 8 + q}", (lambda x, pre=pre, suf=suf: {"bits": pre + format(x, "08b") + suf}), 8))
+    for mask in sorted(crc_ref.MASKS9):
+        for p, q in [(0, 0), (11, 0), (71, 7), (rng.randrange(90, 300), rng.randrange(0, 12))]:
+            pre, suf = _rand_bits(rng, p), _rand_bits(rng, q)
+            plans.append(("crc9", f"{mask}:len_{p + 9 + q}", (lambda x, pre=pre, suf=suf, mask=mask: {"bits": pre + format(x, "09b") + suf, "mask": mask}), 9))
+        # parts: the last two data octets are the window (16 unknowns, 9 equations); serial number and crc32 follow it
+        for nd, c32, as_ in [(10, None, "int"), (16, None, "int"), (22, None, "int"), (12, rng.randrange(1, 2**32), "int"), (6, rng.randrange(1, 2**32), "bytes"), (2, None, "int")]:
+            d, sn = bytes(rng.getrandbits(8) for _ in range(nd)), rng.randrange(128)
+            plans.append(("crc9_parts", f"{mask}:{nd}_octets{'' if c32 is None else '+crc32_' + as_}",
+                          (lambda x, d=d, sn=sn, mask=mask, c32=c32, as_=as_: {"data": _octet_window(d, len(d) - 2, 2, x).hex(), "sn": sn, "mask": mask, "crc32": c32, "crc32_as": as_}), 16))
+    for mask in sorted(crc_ref.MASKS16):
+        for nd, pos in [(2, 0), (10, 8), (10, 3), (12, 0), (rng.randrange(13, 64), None)]:
+            d = bytes(rng.getrandbits(8) for _ in range(nd))
+            pos = rng.randrange(0, nd - 1) if pos is None else pos
+            plans.append(("crc16", f"{mask}:{nd}_octets_window_at_{pos}", (lambda x, d=d, pos=pos, mask=mask: {"data": _octet_window(d, pos, 2, x).hex(), "mask": mask}), 16))
+    # CRC-32: even octet counts, pair-aligned four-octet window (contiguous in the pair-swapped domain)
+    for nd, pos in [(4, 0), (12, 8), (12, 0), (20, 16), (56, 52), (2 * rng.randrange(8, 32), None), (2 * rng.randrange(8, 32), None)]:
+        d = bytes(rng.getrandbits(8) for _ in range(nd))
+        pos = 2 * rng.randrange(0, nd // 2 - 1) if pos is None else pos
+        plans.append(("crc32", f"{nd}_octets_window_at_{pos}", (lambda x, d=d, pos=pos: {"data": _octet_window(d, pos, 4, x).hex()}), 32))
+    return plans
+
+
+def _ref_value(target, msg):
+    if target.startswith("engine:"):
+        return crc_ref.rem(target.split(":")[1], crc_ref.bits_of(msg["bits"]))
+    return fe_expected(target, msg)
+
+
+def drv_extreme(ctx: Ctx, sub: SubCheck):
+    plans = _extreme_plans(ctx)
+    items = list(range(len(plans)))
+
+    def work(i, t: Tally):
+        target, label, make, nbits = plans[i]
+        w = crc_ref.WIDTH[target.split(":")[1]] if target.startswith("engine:") else FE_WIDTH[target]
+        for name, want in crc_ref.extreme_values(w).items():
+            x = crc_ref.solve_affine(lambda v: _ref_value(target, make(v)), nbits, want)
+            if x is None:
+                raise HarnessError(f"no window value gives CRC {hex(want)} for {target} {label}")
+            case = {"target": target, "msg": make(x), "want": want}
+            ctx.run_case(sub.name, oracle_extreme, case, t)
+            t.case(sub.name, key=case, nontrivial=True, cls=f"{target}:{name}")
+            t.cls(sub.name, f"shape:{target}:{label.split(':')[-1]}")
+            if name == "all_ones" and i % 9 == 0:
+                t.sample(sub.name, case)
+
+    ctx.shards(work, items, chunksize=4)
+    ctx.tally.extra["extreme_output_shapes"] = len(plans)
+    ctx.tally.notes.append("extreme_outputs: every shape x each of the 6 edge values of the output range; messages constructed by GF(2) elimination on the reference, construction asserted on the reference")
+
+
 SUBCHECKS = [
     SubCheck("captured_vectors", oracle_captured, drv_captured, "reference and library agree with CRC values captured from real radios"),
+    SubCheck("extreme_outputs", oracle_extreme, drv_extreme, "messages constructed so that the CRC is 0 / all ones / 1 / top bit only / all ones - 1 / top bit clear, for every engine config and front end: value, modes, check incl. wrap-around neighbours"),
     SubCheck("engine_every_length", oracle_engine, drv_engine_lengths, "5 configs x every length 0..400 x {0s, 1s, random}: all calculators == M(x)x^w mod G"),
     SubCheck("engine_unit_vectors", oracle_engine, drv_engine_units, "all unit vectors of 7 lengths per config (with linearity: every message)"),
     SubCheck("engine_random", oracle_engine, drv_engine_random, "Hypothesis: (config, length 0..400, contents, previous message)"),
